@@ -10,6 +10,13 @@ clock that the specification sets to any value (ClockSet: forward, backward, beh
 a duplicate reaches a front end whose clock reads earlier than, equal to or later than the stored timestamp
 (DupIgnoresClock, StoredNeverRestamped); a submission can fail at the signer, at a backend that refuses the call, or
 after the backend stored the leaf (lost reply), and is then retried through either instance (SCTOnlyOn200).
+
+Entry shapes (spec/ctfe/EntryShapes.tla): besides hierarchy, tail, key type, oddities, storage, poison position, the
+value-dependent fields of the submitted TBSCertificate - notBefore / notAfter in 1949, 1950, 1999, 2000, 2049, 2050,
+2051, 9999 (first / middle / last second; every ordered pair), serial numbers 1, 127, 128, 2^159-1, an extension
+identifier with multi-octet arcs - on an X.509 entry, a directly issued precertificate and precertificates behind
+both kinds of precertificate signing certificate (law FieldsVerbatim: the SCT is over, and the leaf equals, the entry
+with every such field written as the CA wrote it).
 """
 import json
 
@@ -28,4 +35,14 @@ def run(ctx, replay=None):
     if not replay:
         # the certificate token opened: SCT over the independently derived entry for every shape of submission
         # (cross-signed roots, pre-issuers with either AKI form, key types, non-fatal oddities, chain storage modes)
+        ctx.assumptions.append(
+            "entry shapes: validity years {1949, 1950, 1999, 2000, 2049, 2050, 2051, 9999} at the first / last (thorough: "
+            "also a middle) second, written as a conforming CA (std crypto/x509) writes them - UTCTime exactly for "
+            "1950..2049; serial numbers {1, 127, 128, 2^159-1}; one extension identifier 2.999.2147483647.1; these ride "
+            "on 4 representative shapes (X.509, precert direct, precert behind a pre-issuer with keyid / full AKI), "
+            "P-256 keys, root omitted, in-backend chain mode")
         ctfe_common.entry_shapes(ctx, "C01")
+        # "carries the validated chain as extra data" when the chain is carried by hash (external issuance chain storage):
+        # what is acknowledged is stored in the table of that log - also after a failed storage.Add and a re-submission,
+        # and with several logs in one process (ChainStore.tla behaviours on twin instances)
+        ctfe_common.external_storage(ctx)
